@@ -397,6 +397,7 @@ func c03Case(ctx *core.Ctx, idx int) core.Result {
 	defer setTight(false)
 	ses := calcrun.NewSession()
 	ses.StepLimit = 50000000
+	ses.ForkLimit = 500000
 	if stress == "pregrown" {
 		ses.Exec("vpre = (n) -> if n <= 0 0 else 1 + vpre(n-1)", false)
 		ses.Exec("vpre(3000)", false)
